@@ -8,7 +8,7 @@ CONSTANTS
   CommitIds <- C_CommitIds
   Users <- C_Users
   Cfgs <- C_Cfgs
-  MaxCalls = 4
+  MaxCalls = 3
   MaxFlush = 1
   MaxReopen = 1
   MaxCrash = 0
@@ -16,7 +16,7 @@ CONSTANTS
   Concurrent = FALSE
   WithRejects = TRUE
   ExportOneIn = 1
-INVARIANTS NoViolation CacheCounterExact ChunksAbut DurableIsPrefix Export
+INVARIANTS NoViolation CacheCounterExact ChunksAbut DurableIsPrefix Export 
 VIEW View
 ALIAS Alias
 CHECK_DEADLOCK FALSE
